@@ -56,6 +56,7 @@ type TClient struct {
 	CloseCode int // ws close frame code if one was received
 	Log       []TLog
 	maskCtr   uint32
+	paused    bool // reader goroutines stop reading from the socket (a stalled client)
 }
 
 func newTClient(kind, connID string) *TClient {
@@ -202,11 +203,35 @@ func OpenWSOn(hc *HConn, o WSOpts) (*TClient, *HResp, error) {
 	return t, resp, nil
 }
 
+// PauseReading makes the client stop reading from its sockets (it keeps them
+// open): the peer's writes eventually block. ResumeReading continues.
+func (t *TClient) PauseReading() {
+	t.mu.Lock()
+	t.paused = true
+	t.mu.Unlock()
+}
+
+func (t *TClient) ResumeReading() {
+	t.mu.Lock()
+	t.paused = false
+	t.cond.Broadcast()
+	t.mu.Unlock()
+}
+
+func (t *TClient) waitUnpaused() {
+	t.mu.Lock()
+	for t.paused {
+		t.cond.Wait()
+	}
+	t.mu.Unlock()
+}
+
 func (t *TClient) wsReader() {
 	br := t.ws.BR
 	var msg []byte
 	inMsg := false
 	for {
+		t.waitUnpaused()
 		var h [2]byte
 		if _, err := io.ReadFull(br, h[:]); err != nil {
 			t.endOut(endKind(err))
@@ -497,6 +522,7 @@ func OpenLegacy(addr string, o LegacyOpts) (*TClient, *LegacyResult, error) {
 func (t *TClient) outReader() {
 	buf := make([]byte, 64*1024)
 	for {
+		t.waitUnpaused()
 		n, err := t.out.BR.Read(buf)
 		if n > 0 {
 			t.appendStream(buf[:n])
